@@ -624,7 +624,8 @@ def spec_case(ch, ctx, pid, ideal, pair, names, z, F, inerts, force, label, prio
                 _VLE.maxiter = 200
                 c = build(th, names, mol, inerts, start)
                 c.vle(**kw)
-                if abs(getattr(c, q) - kw[q]) <= tol: res += ',maxiter=short'
+                e200 = abs(getattr(c, q) - kw[q])
+                if e200 <= tol or e200 <= 1e-2 * err: res += ',maxiter=short'      # met, or at least 100x closer
             except Exception:
                 pass
             finally:
@@ -754,6 +755,29 @@ def with_env(fn, envf):
         raise Violation('|'.join(parts), v.msg)
 
 
+def inner_tag(s, T, P):
+    """'' or ',inner=unconverged' (failure path only): apply thermosteam's OWN fixed-point map once to the state its inner
+    flash returned.  The map is accelerated with flx.aitken(checkconvergence=False, convergenceiter=5, maxiter=20): it may stop
+    on its no-improvement rule or its iteration limit without having met K_tol = 1e-6.  A returned state that its own map
+    still moves by more than 10 K_tol in ln K was not converged; a state that is a fixed point of the code's map but violates
+    the oracle (wrong model in K) gets no tag."""
+    try:
+        from thermosteam.equilibrium import vle as _v
+        o = s.vle
+        z = np.asarray(o._z, float); K = np.asarray(o._K, float); V = float(o._V); n = z.size
+        Ps = np.array([f(T) for f in o._bubble_point.Psats], float)
+        pp = o._pcf(T, P, Ps) * Ps / P
+        xV = np.concatenate([z / (1.0 + V * (K - 1.0)), [V], np.log(K)])
+        g = o._gamma
+        if n > 2 or o._z_light or o._z_heavy:
+            new = _v.xVlogK_iter(xV, pp, T, P, z, o._z_light, o._z_heavy, g.f, g.args, o._phi, n, None, None)
+        else:
+            new = _v.xVlogK_iter_2n(xV, pp, T, P, z, g.f, g.args, o._phi, n, None, None)
+        return ',inner=unconverged' if np.abs(new[n + 1:] - xV[n + 1:]).max() > 1e-5 else ''
+    except Exception:
+        return ''
+
+
 def env_tag(th, names, ref, z, T=None, P=None):
     """'ok' / 'bad': do the package's own BubblePoint / DewPoint solvers (which bracket the flash) return the bubble and
     dew point of the mixture?  Judged against the reference envelope (1e-3 K, 1e-6 relative in P).  Computed only when
@@ -856,7 +880,7 @@ def prop_boundary(ch, ctx):
             if r['converged'] and r['phase'] == 'lg':
                 ctx.metric_max('boundary:|V-V_ref|', abs(vapour_fraction(snap) - r['V']))
                 check_split(ctx, snap, th, names, mol, r, 'refsplit.TP', region, TOL_REF)
-    with_env(oracle, lambda: env_tag(th, names, ref, z, T=T))
+    with_env(oracle, lambda: env_tag(th, names, ref, z, T=T) + inner_tag(s, T, P))
     ctx.nontriv(['boundary', pid, names, stratum, start['kind'], bool(gas), bool(liq)])
 
 
@@ -994,6 +1018,9 @@ def prop_scaling(ch, ctx):
     if worst > tol_scale:
         ctx.fail(f'{site}|{region}|flows-not-scaled',
                  f'{th.chemicals.IDs[wi]} in {wp}: {a[wp][wi]!r}*{k!r} != {b[wp][wi]!r} (T {s1.T!r}/{s2.T!r}, P {s1.P!r}/{s2.P!r})')
+    if not (100.0 < s1.T < 2000.0 and 100.0 < s2.T < 2000.0):
+        # the temperature solve of a single-phase result ran away (Mixture.xsolve_T_at_SP / _HP, property C02)
+        ctx.fail(f'{site}|{region}|T-diverged', f'T {s1.T!r} vs {s2.T!r} (k={k!r})')
     ctx.check(abs(s1.T - s2.T) <= (1e-2 if pair == 'PS' else 1e-6 * max(1.0, s1.T)), f'{site}|{region}|T-differs', lambda: f'T {s1.T!r} vs {s2.T!r}')
     ctx.check(abs(s1.P - s2.P) <= p_tol, f'{site}|{region}|P-differs', lambda: f'P {s1.P!r} vs {s2.P!r}')
     if a['g'].sum() > 0 and a['l'].sum() > 0:
